@@ -445,7 +445,9 @@ C14_Step ==
             /\ book[n].stored = {} => \A w \in Wallet : BalanceOutcomes(book'[m], w) = BalanceOutcomes(book[n], w)
 C14_LoadEqualsSource == [][NotReset => C14_Step]_vars
 
-\* C02: conservation over the union of confirmed vertices at quiescent points
+\* C02: conservation over the union of confirmed vertices at quiescent points.  The property is about ledgers in which
+\* no confirmed vertex was sealed under the trusted-node exemption; the behaviours of the C02 check therefore never
+\* trust a sealing node, and vertices of currently trusted sealers are left out of the sums.
 Confirmed(b) == {v \in b.live : ChildrenIn(b, v) # {}} \cup b.stored
 Quiescent == \A n \in Node : inflight[n] = {}
 C02_NoOverdraftUnion ==
